@@ -51,10 +51,13 @@ Definition wdesc_eqb (a b : wdesc) : bool :=
   end.
 
 (* pure-Python stage functions used by the harness *)
-Inductive fcode := FId | FRev | FScale (q : Qc) | FSq | FMulSize | FAddSize | FDropLast | FRamp.
+(* FFalsy c: a callable OBJECT computing c whose truth value is False (callable list / dict subclass with no
+   items, class with __len__ or __bool__); FZero: everything to zero (what an empty ParallelFilter computes). *)
+Inductive fcode := FId | FRev | FScale (q : Qc) | FSq | FMulSize | FAddSize | FDropLast | FRamp | FZero
+                 | FFalsy (c : fcode).
 Fixpoint ramp (i : nat) (l : list Qc) : list Qc :=       (* x_i + i *)
   match l with [] => [] | x :: r => (x + Q2Qc (inject_Z (Z.of_nat i)))%Qc :: ramp (S i) r end.
-Definition f1 (c : fcode) (blk : list Qc) : list Qc :=
+Fixpoint f1 (c : fcode) (blk : list Qc) : list Qc :=
   match c with
   | FId | FMulSize | FAddSize => blk
   | FRev => rev blk
@@ -62,19 +65,24 @@ Definition f1 (c : fcode) (blk : list Qc) : list Qc :=
   | FSq => map (fun x => (x * x)%Qc) blk
   | FDropLast => removelast blk
   | FRamp => ramp 0 blk
+  | FZero => map (fun _ => 0%Qc) blk
+  | FFalsy c' => f1 c' blk
   end.
-Definition f2 (c : fcode) (blk : list Qc) (n : nat) : list Qc :=
+Fixpoint f2 (c : fcode) (blk : list Qc) (n : nat) : list Qc :=
   let qn := Q2Qc (inject_Z (Z.of_nat n)) in
   match c with
   | FMulSize => map (fun x => (x * qn)%Qc) blk
   | FAddSize => map (fun x => (x + qn)%Qc) blk
+  | FFalsy c' => f2 c' blk n
   | _ => f1 c blk
   end.
-Definition fcode_eqb (a b : fcode) : bool :=
+Definition falsy (c : fcode) : bool := match c with FFalsy _ => true | _ => false end.
+Fixpoint fcode_eqb (a b : fcode) : bool :=
   match a, b with
   | FId, FId | FRev, FRev | FSq, FSq | FMulSize, FMulSize | FAddSize, FAddSize
-  | FDropLast, FDropLast | FRamp, FRamp => true
+  | FDropLast, FDropLast | FRamp, FRamp | FZero, FZero => true
   | FScale x, FScale y => Qc_eqb x y
+  | FFalsy x, FFalsy y => fcode_eqb x y
   | _, _ => false
   end.
 
@@ -155,7 +163,7 @@ Inductive sobs :=
 Record scase := SC { s_gc : Qc; s_layers : list ckwl; s_func : fcode; s_sig : list Qc; s_obs : sobs }.
 
 Definition corr_stft (c : scase) : bool :=
-  match s_obs c, stft_model f1 f2 wsem (s_gc c) (s_layers c) (s_func c) (s_sig c) with
+  match s_obs c, stft_model f1 f2 wsem falsy (s_gc c) (s_layers c) (s_func c) (s_sig c) with
   | OCallRaise s, SCallRaise e => String.eqb s (exn_name e)
   | OBlocks b e, SBlocks b' e' => blocks_eqb b b' && oexn_eqb e e'
   | OUser i p b e, SUser i' p' b' e' => Nat.eqb i i' && dict_eqb p p' && blocks_eqb b b' && oexn_eqb e e'
@@ -172,7 +180,7 @@ Definition stft_gc_ok (c : scase) : bool :=
   end.
 
 Definition holds_stft (c : scase) : bool :=
-  match stft_promise f1 f2 wsem (s_gc c) (s_layers c) (s_func c) (s_sig c) with
+  match stft_promise f1 f2 wsem falsy (s_gc c) (s_layers c) (s_func c) (s_sig c) with
   | PSilent => true
   | PBlocks b => match s_obs c with OBlocks b' None => blocks_eqb b' b | _ => false end
   | PUser id b =>
